@@ -233,10 +233,37 @@ def same(a, b):
     return True
 
 
-def run_case(exe, seed, n_prior, max_k, pairs):
+SCRIPTED = [  # (owner's flags, [waiters' flags], the newcomer's flags): a name with a queue behind its owner, and somebody who asks to replace
+    (1, [0], 2), (1, [0], 3), (1, [0, 0], 2), (1, [1], 6), (0, [0], 2), (1, [0], 7), (3, [1, 0], 3)]
+
+
+def scripted_case(k):
+    """prior state and request spelled out: an owner, waiters queued behind it, a newcomer's RequestName - the request whose failure must
+    leave the queue exactly as it was, in the same order"""
+    of, wf, nf = SCRIPTED[k % len(SCRIPTED)]
+    nconn = 2 + len(wf)
+    ops = [("connect", 0), ("send", 0, method_call(1, BUS, BUS_PATH, BUS, "Hello").marshal())]
+    live, serial = {0: True}, {0: 1}
+    for c in range(1, nconn + 1):
+        ops += [("connect", c), ("send", c, method_call(1, BUS, BUS_PATH, BUS, "Hello").marshal())]; live[c] = True; serial[c] = 1
+    def req(c, fl):
+        serial[c] += 1
+        return ("send", c, method_call(serial[c], BUS, BUS_PATH, BUS, "RequestName", "su", [NAMES[0], fl]).marshal())
+    ops.append(req(1, of))
+    for i, fl in enumerate(wf):
+        ops.append(req(2 + i, fl))
+    c = nconn
+    tgt = (c, method_call(serial[c] + 1, BUS, BUS_PATH, BUS, "RequestName", "su", [NAMES[0], nf]).marshal(), "request")
+    return ops, live, serial, [], nconn, tgt
+
+
+def run_case(exe, seed, n_prior, max_k, pairs, scripted=None):
     r = random.Random(seed)
-    ops, live, serial, calls, nconn = gen_prior(r, n_prior)
-    tgt = gen_target(r, live, serial, calls, nconn)
+    if scripted is not None:
+        ops, live, serial, calls, nconn, tgt = scripted_case(scripted)
+    else:
+        ops, live, serial, calls, nconn = gen_prior(r, n_prior)
+        tgt = gen_target(r, live, serial, calls, nconn)
     if tgt is None:
         return {"seed": seed, "skip": True}
     c, msg, fam = tgt
